@@ -20,6 +20,7 @@ import (
 func TestVerif_C12_concurrent(t *testing.T) {
 	rec := vh.NewRec("C12", "concurrent", "rapid-generated (phantom subnet file x registrar configuration x 4-16 generated clients with distinct secrets, bidirectional / unidirectional mixed, GOMAXPROCS 1 / 2 / unchanged) registering at once through RegisterBidirectional / RegisterUnidirectional with a capturing sender that holds the first send (and with it the publish lock) until every client has started; each accepted registration must own exactly one forwarded message, equal in its non-random fields to a sequential run of the same registration, and satisfy the per-registration C12 oracle incl. the station; non-trivial = at least two registrations accepted at once; distinct by whole case")
 	defer rec.Flush()
+	defer func() { rec.Extra("open_fds_at_end_sum_over_shards", C12OpenFDs()) }()
 	rec.Require("several-accepted-at-once", "four-or-more-accepted-at-once", "gomaxprocs=1", "gomaxprocs=0", "clients>=8", "bidirectional", "unidirectional", "authenticated", "unauthenticated")
 	e := C12NewEnv(t)
 	if p := vh.ReplayFile(); p != "" {
